@@ -52,6 +52,9 @@ def run(ctx: Ctx):
               ' after the end marker otherwise gets the RETRIABLE "Generator is not set" timeout and the client restarts a'
               ' finished stream', c15.r18, min_instances=4)
   from mlmverif.props import c17 as _c17
+  ctx.include('R-C14-29', '"indexing ... on a remote object behaves like on the local object": the traced `obj[key]` records the key AS'
+              ' GIVEN (R-C17-8) — a list key turned into a tuple selects ONE element of an array instead of rows (fancy'
+              ' indexing) and finds a tuple-keyed entry of a dict instead of raising', _c17.r8, min_instances=2)
   ctx.include('R-C14-28', '"the object itself stays on the server": the handles of server-side objects are keyed by id alone, so the'
               ' per-process id counter must not wrap while a handle is in use — IncrementId is at least 8 bytes wide'
               ' (R-C17-17); a 2-byte counter gives the id of a live remote handle to a new object after 65536 allocations', _c17.r17,
@@ -1143,6 +1146,9 @@ from mlmverif.selfcheck import B, OK  # noqa: E402
 _S = 'chainables/courier_server.py'
 _U = 'utils/courier_utils.py'
 VARIANTS = [
+    B('traced-list-key-becomes-a-tuple', 'chainables/lazy_fns.py',
+      '  def __getitem__(self, key) -> LazyFn:\n    return LazyFn.new(operator.getitem, args=(self, key))',
+      '  def __getitem__(self, key) -> LazyFn:\n    if isinstance(key, list):\n      key = tuple(key)\n    return LazyFn.new(operator.getitem, args=(self, key))', 'R-C14-29'),
     B('clients-equal-by-address-alone', 'utils/courier_utils.py',
       "    return isinstance(other, CourierClient) and self.configs == other.configs", "    return isinstance(other, CourierClient) and self.address == other.address", 'R-C14-27'),
     B('id-counter-four-bytes', 'chainables/lazy_fns.py',
